@@ -367,8 +367,22 @@ def check_sdrz(case):
         return o
     pj = P['rho_0'] * P['D'] ** 2 / (P['gamma'] + 1)
     sc = dict(pressure=2 * pj, density=P['rho_0'] * 2, velocity=P['D'], sound_speed=P['D'], reaction_progress=1.0)
+    # the solver interpolates linearly in a 201-point table in tau (and in the particle position): where the closed form is strongly curved
+    # (just behind the front for gamma close to 1: rho ~ 1 / (gamma - 1 + tau)) the table's own error dtau^2 f'' / 8 exceeds the flat tolerance;
+    # it is measured on the closed form (second difference over one table step) and allowed with a factor 4
+    def state(tau_):
+        lam_ = np.where(tau_ < 1, tau_ * (2 - tau_), 1.0)
+        gg_ = np.sqrt(np.maximum(1 - lam_, 0.0))
+        g_ = P['gamma']
+        rhoj_ = P['rho_0'] * (g_ + 1) / g_
+        p_ = pj * (1 + gg_)
+        r_ = rhoj_ * g_ / (g_ - gg_)
+        return dict(pressure=p_, density=r_, velocity=(1 - P['rho_0'] / r_) * P['D'], sound_speed=np.sqrt(g_ * p_ / r_), reaction_progress=lam_)
+    tk = np.clip(tau[keep], dt, None)
+    s0, sm, sp_ = state(tk), state(tk - dt), state(tk + dt)
     for k in ('pressure', 'density', 'velocity', 'sound_speed', 'reaction_progress'):
-        o.close('SDRZ %s == documented closed form' % k, _arr(sol, k)[keep], ref[k][keep], 5e-4, scale=sc[k], regime='t>1' if t > 1 else 't<=1')
+        curv = 0.5 * np.abs(sp_[k] - 2 * s0[k] + sm[k])
+        o.close('SDRZ %s == documented closed form' % k, _arr(sol, k)[keep], ref[k][keep], 0.0, atol=5e-4 * sc[k] + curv, regime='t>1' if t > 1 else 't<=1')
     o.nontrivial = True
     return o
 
